@@ -20,6 +20,7 @@ import (
 	"strconv"
 	"strings"
 	"sync"
+	"time"
 
 	. "gopkg.in/check.v1"
 	"gopkg.in/tomb.v2"
@@ -909,7 +910,7 @@ func (s *verifC22Suite) runHistory(c *C, hi int) {
 
 	// the loaded state itself must be consistent
 	s.state.Lock()
-	s.crossCheck(s.snapshot(), "startup", "none", "", wit(nil))
+	s.crossCheck(s.snapshot(), "startup", "no-fault", "", wit(nil))
 	s.state.Unlock()
 
 	nops := 5 + rnd.Intn(4)
@@ -945,7 +946,7 @@ func (s *verifC22Suite) restartAndCheck(c *C, when string, wit func(map[string]i
 	if post.Conns != pre.Conns {
 		chk.Count("restarts_that_rewrote_conns", 1)
 	}
-	s.crossCheck(post, "restart", "none", "", wit(map[string]interface{}{"when": when, "before_restart": pre}))
+	s.crossCheck(post, "restart", "no-fault", "", wit(map[string]interface{}{"when": when, "before_restart": pre}))
 }
 
 // crossCheck is oracle (2). State lock held.
@@ -967,7 +968,7 @@ func (s *verifC22Suite) crossCheck(sn *v22Snapshot, opKind, site, status string,
 	wit["persisted_active"] = act
 	wit["persisted_not_in_memory"] = onlyPersisted
 	wit["in_memory_not_persisted"] = onlyMemory
-	sig := "C22:persisted-vs-memory:" + opKind + ":" + site
+	sig := "C22:" + site + ":" + opKind + ":persisted-vs-memory"
 	if status != "" {
 		sig += ":" + status
 	}
@@ -989,11 +990,21 @@ func (s *verifC22Suite) runOp(c *C, rnd *rand.Rand, hi, oi int, op v22Op, wit fu
 			return true
 		}
 		if o.violated {
-			// memory and persisted state may disagree from here on: resync
-			// through a restart and move on to the next operation
+			// memory and persisted state disagree from here on: resync through
+			// a restart; go on with this operation only if that gave the
+			// pre-state back
 			chk.Count("resyncs_after_violation", 1)
-			s.restart(c)
-			return true
+			if err := s.restart(c); err != nil {
+				return true
+			}
+			s.state.Lock()
+			now := s.snapshot()
+			s.state.Unlock()
+			if now.Conns != o.before.Conns || kit.JSON(now.Repo) != kit.JSON(o.before.Repo) {
+				return true
+			}
+			chk.Count("resyncs_that_restored_prestate", 1)
+			return false
 		}
 		// the operation went through: nothing left to fault
 		return o.status == state.DoneStatus
@@ -1021,20 +1032,7 @@ func (s *verifC22Suite) runOp(c *C, rnd *rand.Rand, hi, oi int, op v22Op, wit fu
 			return
 		}
 	}
-	// F3: h-th hook invocation fails
-	for h := 1; ; h++ {
-		if (nHooks >= 0 && h > nHooks) || (nHooks < 0 && h > 12) {
-			break
-		}
-		o := try(v22Fault{Kind: "hook", Pos: h})
-		if stop(o) {
-			return
-		}
-		if !o.fired {
-			break // organically failing change whose bounds were unknown
-		}
-	}
-	// F4: n-th backend Setup call fails
+	// F3: n-th backend Setup call fails
 	for n := 1; ; n++ {
 		if (nSetups >= 0 && n > nSetups) || (nSetups < 0 && n > 12) {
 			break
@@ -1045,6 +1043,19 @@ func (s *verifC22Suite) runOp(c *C, rnd *rand.Rand, hi, oi int, op v22Op, wit fu
 		}
 		if !o.fired {
 			break
+		}
+	}
+	// F4: h-th hook invocation fails (last: ignored hook errors let the change complete)
+	for h := 1; ; h++ {
+		if (nHooks >= 0 && h > nHooks) || (nHooks < 0 && h > 12) {
+			break
+		}
+		o := try(v22Fault{Kind: "hook", Pos: h})
+		if stop(o) {
+			return
+		}
+		if !o.fired {
+			break // organically failing change whose bounds were unknown
 		}
 	}
 	// finally the operation itself
@@ -1079,7 +1090,7 @@ func (s *verifC22Suite) attempt(c *C, hi, oi int, op v22Op, f v22Fault, wit func
 			s.splice(chg, static[f.Pos])
 		}
 	case "none":
-		o.site = "none"
+		o.site = "no-fault"
 	}
 	s.arm(f)
 	st.Unlock()
@@ -1121,6 +1132,9 @@ func (s *verifC22Suite) attempt(c *C, hi, oi int, op v22Op, f v22Fault, wit func
 
 	st.Lock()
 	defer st.Unlock()
+	// drop finished changes: the state is re-serialised on every unlock and
+	// would otherwise grow with every attempt (not an oracle input)
+	defer st.Prune(time.Now(), 24*time.Hour, 24*time.Hour, 0)
 	chk.Eval()
 	chk.Count("changes_run", 1)
 	s.mu.Lock()
@@ -1156,6 +1170,21 @@ func (s *verifC22Suite) attempt(c *C, hi, oi int, op v22Op, f v22Fault, wit func
 		}
 	}
 	plugSnap, slotSnap := op.ends()
+	roleOfFailure := ""
+	// operation class for signatures: what the connection was before
+	class := op.Kind
+	if op.manual() {
+		id := op.Plug + " " + op.Slot
+		e, known := before.connsMap[id]
+		switch {
+		case op.Kind == "forget" && known && (v22Flag(e, "undesired") || v22Flag(e, "hotplug-gone")):
+			class = "forget-inactive"
+		case op.Kind == "connect" && known && v22Flag(e, "undesired"):
+			class = "connect-undesired"
+		case op.Kind != "connect" && known && v22Flag(e, "auto"):
+			class = op.Kind + "-auto"
+		}
+	}
 	switch f.Kind {
 	case "hook":
 		if o.fired {
@@ -1175,7 +1204,8 @@ func (s *verifC22Suite) attempt(c *C, hi, oi int, op v22Op, f v22Fault, wit func
 			case op.Snap:
 				role = "own-snap"
 			}
-			o.site = "failing-setup-in-" + erroredKind + "-of-" + role
+			o.site = "failing-setup-in-" + erroredKind
+			roleOfFailure = ":setup-of-" + role + "-failed"
 		}
 	}
 	if o.site == "" {
@@ -1186,8 +1216,9 @@ func (s *verifC22Suite) attempt(c *C, hi, oi int, op v22Op, f v22Fault, wit func
 		chk.Count("organic_failures", 1)
 	}
 	statusName := o.status.String()
+	chk.Count("changes_of_class_"+class, 1)
 	w := func(extra map[string]interface{}) map[string]interface{} {
-		m := wit(map[string]interface{}{"op_index": oi, "op": op, "fault": f, "fault_site": o.site, "change_status": statusName,
+		m := wit(map[string]interface{}{"op_index": oi, "op": op, "op_class": class, "fault": f, "fault_site": o.site, "change_status": statusName,
 			"task_kinds": o.kinds, "change_error": fmt.Sprint(chg.Err()), "hooks_run": hookLog, "setup_calls": setupLog})
 		for k, v := range extra {
 			m[k] = v
@@ -1219,8 +1250,11 @@ func (s *verifC22Suite) attempt(c *C, hi, oi int, op v22Op, f v22Fault, wit func
 		}
 	}
 
+	if os.Getenv("VERIF_C22_DEBUG") != "" {
+		fmt.Printf("C22DBG h=%d op=%d %s fault=%s/%d fired=%v site=%s status=%s static=%d dyn=%d hooks=%d setups=%d all=%v\n", hi, oi, kit.JSON(op), f.Kind, f.Pos, o.fired, o.site, statusName, o.nStatic, o.nDyn, len(hookLog), len(setupLog), after.All)
+	}
 	// oracle (2): every settle
-	if !s.crossCheck(after, op.Kind, o.site, statusName, w(map[string]interface{}{"before": before})) {
+	if !s.crossCheck(after, class, o.site, statusName, w(map[string]interface{}{"before": before})) {
 		o.violated = true
 	}
 
@@ -1239,7 +1273,7 @@ func (s *verifC22Suite) attempt(c *C, hi, oi int, op v22Op, f v22Fault, wit func
 		if after.Conns != before.Conns {
 			restored = false
 			o.violated = true
-			chk.Violation("C22:conns-not-restored:"+op.Kind+":"+o.site, w(map[string]interface{}{"conns_before": before.Conns, "conns_after": after.Conns}))
+			chk.Violation("C22:"+o.site+":"+class+":conns-not-restored", w(map[string]interface{}{"conns_before": before.Conns, "conns_after": after.Conns}))
 		}
 		var changedSnaps []string
 		for _, n := range v22AllNames {
@@ -1250,7 +1284,7 @@ func (s *verifC22Suite) attempt(c *C, hi, oi int, op v22Op, f v22Fault, wit func
 		if len(changedSnaps) > 0 {
 			restored = false
 			o.violated = true
-			chk.Violation("C22:repo-not-restored:"+op.Kind+":"+o.site, w(map[string]interface{}{"snaps": changedSnaps, "repo_before": before.Repo, "repo_after": after.Repo}))
+			chk.Violation("C22:"+o.site+":"+class+":repo-not-restored", w(map[string]interface{}{"snaps": changedSnaps, "repo_before": before.Repo, "repo_after": after.Repo}))
 		}
 		if !delayed {
 			chk.Count("profile_regeneration_checks", 1)
@@ -1269,12 +1303,11 @@ func (s *verifC22Suite) attempt(c *C, hi, oi int, op v22Op, f v22Fault, wit func
 					continue // profiles untouched: they describe the pre-state
 				}
 				if kit.JSON(lastOK.Conns) != kit.JSON(after.Repo[n]) {
-					o.violated = true
 					role := "plug-snap"
 					if n == slotSnap {
 						role = "slot-snap"
 					}
-					chk.Violation("C22:profiles-not-regenerated:"+op.Kind+":"+o.site+":"+role,
+					chk.Violation("C22:"+o.site+":"+class+":profiles-not-regenerated:"+role+roleOfFailure,
 						w(map[string]interface{}{"snap": n, "last_setup_saw": lastOK.Conns, "final_connections": after.Repo[n]}))
 				}
 			}
